@@ -93,7 +93,7 @@ def run(ctx):
         'a kill is "never scheduled again" (no deferred function runs, nothing is released)',
         'all names have one length, so K = 3 records fit a page; byte-level placement is C10',
     ]
-    ctx.inject('internal/counter')
+    ctx.inject('internal/counter', also=('c03_verif_test.go',))
     ctx.instrument('-files', 'internal/counter')
     small, big = families()
     fams = small + (big if ctx.thorough() else [])
